@@ -225,6 +225,7 @@ pub fn property() -> Property {
         id: "C12",
         cases,
         clauses: &["backpressure-bound", "unbounded-send-never-waits", "stop-never-waits"],
+        full_rerun_check: true,
         assumptions: &["'taken out of its mailbox' is observed as handler entry, which happens in the same step as the dequeue"],
     }
 }
